@@ -444,6 +444,10 @@ def run_live_exec(case):
             sts = W["strategies"]
             reps = []
             if kind == "place":
+                if outcome.get("place_reports") == "none":
+                    # the request is refused as a whole: the answer arrives normally but carries no instruction reports and no bet is created
+                    # (only used by C18's count family)
+                    return resources.PlaceOrders(elapsed_time=0.1, **{"marketId": pkg.market_id, "status": "FAILURE", "errorCode": "MARKET_SUSPENDED", "instructionReports": []})
                 for k, i in enumerate(ins):
                     o = by_ref[i["customerOrderRef"]]; d = D(k)
                     st = d.get("status", "SUCCESS")
